@@ -203,6 +203,23 @@ _calls = [0]
 #: activation means that the kernel spins without ever suspending (a logical measure, not a
 #: wall-clock one)
 SPIN_LIMIT = 3000000
+#: frames resumed (or thrown into) in a row, without any function being called in between: when
+#: an activity is resumed that is the depth of its chain of awaits. Programs of the scenario
+#: language nest a few dozen awaits; a wait that adds a frame per wake-up gets past this
+_resumes = [0]
+CHAIN_LIMIT = 400
+
+
+def _report_chain(sess, depth):
+    if sess is None or not sess.armed or not sess.stack or sess.stats['await_chain_reported']:
+        return
+    sess.stats['await_chain_reported'] = 1
+    sess.violation(
+        'kernel-await-chain-grows',
+        'an activity was resumed through a chain of %d awaits at virtual time %r (programs of '
+        'the scenario language nest a few dozen): every wake-up adds frames that are never '
+        'released, the interpreter stack overflows eventually' % (
+            depth, sess.stack[-1].loop.time))
 
 
 def _install_spin_detector():
@@ -216,7 +233,16 @@ def _install_spin_detector():
         return False
     calls = _calls
 
+    resumes = _resumes
+
+    def resumed(code, offset, *_):
+        resumes[0] += 1
+
     def started(code, offset):
+        if resumes[0]:
+            if resumes[0] > CHAIN_LIMIT:
+                _report_chain(getattr(_tls, 'session', None), resumes[0])
+            resumes[0] = 0
         calls[0] += 1
         if calls[0] > SPIN_LIMIT:
             calls[0] = 0
@@ -230,7 +256,9 @@ def _install_spin_detector():
                         SPIN_LIMIT, sess.stack[-1].loop.time, code.co_qualname))
                 raise HarnessAbort('spin')
     mon.register_callback(tool, mon.events.PY_START, started)
-    mon.set_events(tool, mon.events.PY_START)
+    mon.register_callback(tool, mon.events.PY_RESUME, resumed)
+    mon.register_callback(tool, mon.events.PY_THROW, resumed)
+    mon.set_events(tool, mon.events.PY_START | mon.events.PY_RESUME | mon.events.PY_THROW)
     return True
 
 
@@ -457,6 +485,10 @@ def _w_run_coroutine(self, target, signal=None):
                                type(signal).__name__, sess.label_of(target)))
         _check_owner(sess, target, signal)
     _calls[0] = 0
+    # ---- await chain: a wait must not get deeper every time it is woken ----
+    if _resumes[0] > CHAIN_LIMIT:
+        _report_chain(sess, _resumes[0])
+    _resumes[0] = 0
     # ---- livelock / budget ----
     if st.in_step > sess.budget_per_step:
         sess.aborted = 'livelock'
